@@ -412,14 +412,20 @@ class ThreadProg:
             raise RuntimeError("unknown statement %r" % (op,))
 
     def do_with(self, st):
-        _, spec, how, body, slot = st
+        _, spec, how, body, slot = st[:5]
         obs = self.obs
         cm = None
         created_elsewhere = False
         try:
-            if how in ("premade", "decorated") and slot is not None and slot in self.slots and slot not in self.active:
+            reenter = len(st) > 5 and st[5] == "reenter"
+            if how in ("premade", "decorated") and slot is not None and slot in self.slots and (slot not in self.active or reenter):
                 cm, spec, made_under = self.slots[slot]
                 created_elsewhere = True
+                if slot in self.active:
+                    # the object is entered again while it is still active (A -> B -> A). The unchanged code
+                    # refuses with an AssertionError before touching the register: a failed operation. Code
+                    # that accepts the re-entry must keep the promise for it.
+                    self.probe_hit("active_context_object_entered_again")
             else:
                 slot = None
                 cm = self.make_cm(spec, how)
@@ -453,13 +459,14 @@ class ThreadProg:
                     expected=hex(expected),
                     created_under_other_state=created_elsewhere and made_under != (before & ~STATUS),
                 )
+            was_active = slot in self.active
             if slot is not None:
                 self.active.add(slot)
             try:
                 self.block(body)
             finally:
                 self.depth -= 1
-                if slot is not None:
+                if slot is not None and not was_active:
                     self.active.discard(slot)
 
         exc = None
@@ -550,7 +557,10 @@ def gen_block(rng, kn, depth, budget):
             slot = None
             if how in ("premade", "decorated") and rng.random() < 0.8:
                 slot = rng.randrange(kn["slots"])
-            out.append(["with", gen_spec(rng), how, gen_block(rng, kn, depth + 1, budget), slot])
+            w = ["with", gen_spec(rng), how, gen_block(rng, kn, depth + 1, budget), slot]
+            if slot is not None and rng.random() < 0.25:
+                w.append("reenter")
+            out.append(w)
         elif r < kn["p_with"] + 0.18:
             out.append(["probe"])
         elif r < kn["p_with"] + 0.26:
